@@ -953,6 +953,17 @@ fn prepare_new_auth(room: &Room, new_auth: &AuthorisationNode) -> Result<()> {
             ));
         }
     }
+    //user administrators are named by the administrators of the room, in a new authorisation too
+    for new_user_admin in &new_auth.user_admin_nodes {
+        if !room.is_admin(
+            &new_user_admin.node.verifying_key,
+            new_user_admin.node.mdate,
+        ) {
+            return Err(Error::InvalidNode(
+                "RoomNode Authorisation new user admin is not authorised".to_string(),
+            ));
+        }
+    }
     Ok(())
 }
 
